@@ -115,11 +115,13 @@ CHECKS = {
              "and carries the maximal distance found. C20_loop_is_recursion: with the fuel 2*size the stack loop works the whole line off (cost <= 2(e-s)-1) and "
              "marks exactly the recursive split tree; C20_retained_members; C20_threshold: for consecutive returned indexes i<j every omitted k between them has "
              "not dist(i,j,k) > threshold^2, for every size, threshold^2 >= 0 and distance function whose comparison is a strict weak order. C20_idempotent (same generality): simplifying the retained points again "
-             "(same distances, renumbered) returns all of them - scan_spec (the scan returns the first index attaining the maximum), scan_restrict, dp_restrict. The "
+             "(same distances, renumbered) returns all of them - scan_spec (the scan returns the first index attaining the maximum), scan_restrict, dp_restrict. "
+             "C20_distSegSq_is_min: distanceFromSegmentSquared, in exact arithmetic, is the minimum over t in [0,1] of the squared distance to a + t(b-a), degenerate segments included - so the "
+             "distance the threshold theorem speaks of is the distance to the segment. The "
              "exact-distance reading of the float run are evaluated per run in exact rational arithmetic against Go's output, with the Lean Float mirror "
              "reproducing Go's indexes bit for bit.",
-        note=NOTE_COMMON + "Partial: the threshold and idempotence theorems are about the distance values the code computes (float distances in the run), "
-             "their agreement with exact distances is judged by the rational oracle with a 1e-9 relative slack.",
+        note=NOTE_COMMON + "Partial: the threshold and idempotence theorems are about the distance values the code computes; in exact arithmetic those are the distances to the segment (C20_distSegSq_is_min); "
+             "for the float run their agreement with exact distances is judged by the rational oracle with a 1e-9 relative slack.",
     ),
     "C10": dict(
         technique="Lean 4 theorems over ordered commutative rings (determinant identities, antisymmetry, cyclic invariance, filter exits, integer-grid exactness) + bit-exact correspondence of the filter stage (verif hook) + exact rational sign oracle",
